@@ -12,13 +12,16 @@ ROOT = os.path.dirname(os.path.dirname(os.path.abspath(__file__)))
 
 # obligation-id prefix -> native driver (crate dir, bin or None, extra cargo args); exit code 1 + "VIOLATED" = failing input shown
 NATIVE = [
-    ('with_min_align.inv', ('native_nofeat', None, [])),
-    ('try_with_capacity.inv', ('native_nofeat', None, [])),
-    ('remaining.', ('native', 'f2_limit_ignored_when_over', [])),
-    ('reset.accounting', ('native', 'f3_reset_accounting', [])),
-    ('alloc_try_with.rewind', ('native', 'f4_rewind_new_chunk', [])),
-    ('try_alloc_try_with.rewind', ('native', 'f4_rewind_new_chunk', [])),
-    ('new_chunk.debug_assert', ('native', 'f7_zero_capacity_chunk', [])),
+    ('with_min_align.inv', ('native_nofeat', None, ())),
+    ('try_with_capacity.inv', ('native_nofeat', None, ())),
+    ('remaining.', ('native', 'f2_limit_ignored_when_over', ())),
+    ('reset.accounting', ('native', 'f3_reset_accounting', ())),
+    ('alloc_try_with.rewind', ('native', 'f4_rewind_new_chunk', ())),
+    ('try_alloc_try_with.rewind', ('native', 'f4_rewind_new_chunk', ())),
+    ('new_chunk.debug_assert', ('native', 'f7_zero_capacity_chunk', ())),
+    ('debug_assert.never_fires<-new_chunk', ('native', 'f7_zero_capacity_chunk', ())),
+    ('reset.recycles_completely', ('native', 'f3_reset_accounting', ())),
+    ('alloc_layout_slow.decreases', ('native', 'f8_slow_path_nontermination', ())),
 ]
 
 # obligation-id prefix -> paired Kani harness (loop-free, full domain) used to look for a concrete counterexample
@@ -72,7 +75,7 @@ def run_native(spec, repo):
         outs = []
         found = False
         for prof in ([], ['--release']):
-            cmd = ['cargo', 'run', '-q', '--offline'] + prof + (['--bin', binname] if binname else []) + extra
+            cmd = ['cargo', 'run', '-q', '--offline'] + prof + (['--bin', binname] if binname else []) + list(extra)
             p = subprocess.run(cmd, cwd=os.path.join(tmp, 'c'), env=env, capture_output=True, text=True, timeout=900)
             tail = '\n'.join(l for l in (p.stdout + p.stderr).split('\n') if l and not l.startswith(('warning', ' ', '=', 'help', 'note')) and '-->' not in l)[-1500:]
             outs.append({'cmd': ' '.join(cmd), 'exit': p.returncode, 'output': tail})
@@ -83,6 +86,10 @@ def run_native(spec, repo):
     finally:
         shutil.rmtree(tmp, ignore_errors=True)
         shutil.rmtree(env['CARGO_TARGET_DIR'], ignore_errors=True)
+
+
+_CX_CACHE = {}     # harness -> counterexample record (one search per harness and run, shared by all obligations paired with it)
+_NATIVE_CACHE = {}
 
 
 def make_replay(prop, f, repo, outdir, kres):
@@ -102,7 +109,9 @@ def make_replay(prop, f, repo, outdir, kres):
         for pref, spec in NATIVE:
             if f['obligation'].startswith(pref):
                 try:
-                    found, outs = run_native(spec, repo)
+                    if spec not in _NATIVE_CACHE:
+                        _NATIVE_CACHE[spec] = run_native(spec, repo)
+                    found, outs = _NATIVE_CACHE[spec]
                     rec['native_driver'] = {'crate': spec[0], 'bin': spec[1], 'runs': outs}
                     rec['failing_input_found'] = found
                 except Exception as e:  # replay trouble never hides the violation
@@ -114,7 +123,9 @@ def make_replay(prop, f, repo, outdir, kres):
                     try:
                         import krun
                         if krun.have_harness(h):
-                            r = krun.counterexample(h, repo, outdir)
+                            if h not in _CX_CACHE:
+                                _CX_CACHE[h] = krun.counterexample(h, repo, outdir)
+                            r = _CX_CACHE[h]
                             rec['paired_kani_harness'] = r
                             rec['failing_input_found'] = bool(r.get('failing_input_found'))
                     except Exception as e:
